@@ -1040,7 +1040,27 @@ def analyze_c25(c, spec):
         entry_parent = key.split("/")[0]
         opdef = rt["ops"][key]["opdef"]
         found = []
-        static_walk(e, found, stats, entry_varmap(opdef))
+        vm = entry_varmap(opdef)
+        # The variables in scope at the entrypoint are the variables its client field DECLARES; the operation declares
+        # only those it uses itself. A variable used only below a client pointer is declared by the pointer's refetch
+        # query, not by the entrypoint's operation (declaring it there would be an unused variable, see C09).
+        if c.project is not None:
+            d = c.project.decl(key.replace("/", ".", 1))
+            for n, _t, _dv in (d.variables if d is not None else []):
+                vm.setdefault(n, ["var", n])
+        else:
+            for n in e["nestedRefetchQueries"]:
+                t = eo.op_text(c, n["operation"])
+                try:
+                    ro = parse_op(t) if t is not None else None
+                except (gqlref.GraphQLSyntaxError, IndexError):
+                    ro = None
+                if ro is not None and n.get("kind") != "RefetchQuery":
+                    pass
+                for name in (op_var_names(ro) if ro is not None else []):
+                    if name not in ("id", "input"):
+                        vm.setdefault(name, ["var", name])
+        static_walk(e, found, stats, vm)
         entry_base = [opdef["selectionSet"]]
         if entry_parent != schema.root(opdef["operation"]):
             # entrypoint of a field on a non-root type: its reader is rooted at node(id: $id) { ... on Parent { HERE } }
